@@ -15,7 +15,25 @@ namespace ShVerif.C13
 
 /-- An empty string is always quoted as `''`, in every variant. -/
 theorem empty_quoted (l : Lang) : quote l [] = .ok [0x27, 0x27] := by
-  simp [quote]
+  simp [quote, quoteCore]
+
+/-! ## The legacy zero value -/
+
+theorem resolve_ne_zero (l : Nat) : resolve l ≠ 0 := by
+  unfold resolve
+  split
+  · decide
+  · assumption
+
+theorem resolve_idem (l : Nat) : resolve (resolve l) = resolve l := by
+  have h := resolve_ne_zero l
+  generalize resolve l = r at h
+  simp [resolve, h]
+
+theorem validLang_resolve (l : Lang) (h : validLang l = true) : validLang (resolve l) = true := by
+  unfold resolve; split
+  · decide
+  · exact h
 
 /-! ## quote_roundtrip -/
 
@@ -27,8 +45,9 @@ theorem empty_quoted (l : Lang) : quote l [] = .ok [0x27, 0x27] := by
     exactly the original string. -/
 theorem quote_roundtrip (l : Lang) (s q : Bytes) (hl : validLang l = true)
     (h : quote l s = .ok q) :
-    ∃ w, lexWords (resolve l) q = .ok [w] ∧ WordShape w ∧ expandLit w = .ok s :=
-  quote_roundtrip_main l s q hl h
+    ∃ w, lexWords (resolve l) q = .ok [w] ∧ WordShape w ∧ expandLit w = .ok s := by
+  have := quote_roundtrip_main (resolve l) s q (validLang_resolve l hl) h
+  rwa [resolve_idem] at this
 
 /-- The same, through `unquote` (parse as words, demand exactly one, expand it). -/
 theorem quote_unquote (l : Lang) (s q : Bytes) (hl : validLang l = true)
@@ -45,98 +64,58 @@ theorem quote_nonempty (l : Lang) (s q : Bytes) (hl : validLang l = true)
 
 /-! ## quote_fails_iff -/
 
-/-- What the code does, for **every** bit set `l`: Quote fails exactly when the string contains a
-    NUL byte, or `l.in(LangPOSIX)` and some rune is non-printable or invalid UTF-8, or
-    `l.in(LangMirBSDKorn)` and some non-printable rune is above U+FFFD. -/
-theorem quote_fails_iff_code (l : Lang) (s : Bytes) :
-    (∃ e, quote l s = .error e) ↔ codeFails l s = true :=
-  quote_fails_iff_codeFails l s
-
-/-- The property's wording: with the variant understood as the rest of the package understands it
-    (`resolve`: the zero value means Bash), Quote fails exactly on the strings the variant cannot
-    represent.  **False of the code** for the legacy zero value — see `quote_fails_iff_zero`. -/
-def quote_fails_iff_statement : Prop :=
-  ∀ (l : Lang) (s : Bytes), validLang l = true →
-    ((∃ e, quote l s = .error e) ↔ specFails l s = true)
-
-/-- The statement holds for every non-zero bit set (in particular the five variants, LangAuto,
-    and bit sets that are no variant at all). -/
-theorem quote_fails_iff_partial (l : Lang) (s : Bytes) (h0 : l ≠ 0) :
+/-- The property, for **every** `LangVariant` value (the five variants, the legacy zero value,
+    LangAuto, and bit sets that are no variant): Quote fails exactly on the strings the variant —
+    understood as the rest of the package understands it, zero = Bash — cannot represent: a NUL
+    byte anywhere; in POSIX a non-printable rune or invalid UTF-8; in mksh a non-printable rune
+    above U+FFFD. -/
+theorem quote_fails_iff (l : Lang) (s : Bytes) :
     (∃ e, quote l s = .error e) ↔ specFails l s = true := by
-  rw [quote_fails_iff_code]
-  have r : resolve l = l := by simp [resolve, h0]
-  simp only [codeFails, specFails, r, langIn_eq_of_ne_zero l 2 (Or.inl rfl) h0,
-    langIn_eq_of_ne_zero l 4 (Or.inr rfl) h0, langPOSIX, langMksh]
+  have h0 := resolve_ne_zero l
+  unfold quote
+  rw [quote_fails_iff_codeFails]
+  simp only [codeFails, specFails, resolve_idem, langIn_eq_of_ne_zero (resolve l) 2 (Or.inl rfl) h0,
+    langIn_eq_of_ne_zero (resolve l) 4 (Or.inr rfl) h0, langPOSIX, langMksh]
 
-/-- The counter-example: under the legacy zero value (documented as "the zero value is LangBash")
-    Quote refuses a newline with the POSIX error, although Bash quotes it as `$'\n'` and the
-    property calls the string representable. -/
-theorem quote_fails_iff_zero :
-    quote 0 [0x0a] = .error ⟨0, .posix⟩ ∧
-    quote langBash [0x0a] = .ok [0x24, 0x27, 0x5c, 0x6e, 0x27] ∧
-    specFails 0 [0x0a] = false := by
+/-- The same in the code's own terms (`lang.in(...)` after the legacy-zero guard). -/
+theorem quote_fails_iff_code (l : Lang) (s : Bytes) :
+    (∃ e, quote l s = .error e) ↔ codeFails (resolve l) s = true :=
+  quote_fails_iff_codeFails (resolve l) s
+
+/-- Pinned: why the guard `if lang == langBashLegacy { lang = LangBash }` is needed.  Without it
+    (the body alone, as before commit 9caaaf3) the zero value is "in" every language set and a
+    newline is refused with the POSIX error; with it Quote gives `$'\n'` like LangBash. -/
+theorem pinned_legacy_zero :
+    (∀ m : Lang, langIn 0 m = true) ∧
+    quoteCore 0 [0x0a] = .error ⟨0, .posix⟩ ∧
+    quote 0 [0x0a] = .ok [0x24, 0x27, 0x5c, 0x6e, 0x27] ∧
+    quote 0 [0x0a] = quote langBash [0x0a] := by
+  refine ⟨fun m => by simp [langIn], ?_⟩
   decide +kernel
-
-theorem quote_fails_iff_statement_false : ¬ quote_fails_iff_statement := by
-  intro h
-  have := (h 0 [0x0a] (by decide)).mp ⟨_, quote_fails_iff_zero.1⟩
-  rw [quote_fails_iff_zero.2.2] at this
-  cases this
-
-/-- The zero value behaves as POSIX **and** mksh at once, never as Bash. -/
-theorem legacy_zero_in_everything (m : Lang) : langIn 0 m = true := by
-  simp [langIn]
 
 /-! ## error kinds -/
 
-/-- Which error is reported, and that `quoteErrRange` ("rune out of range") is unreachable. -/
+/-- Which error is reported, and why. -/
 theorem quote_error_kind (l : Lang) (s : Bytes) (e : QErr) (h : quote l s = .error e) :
     (e.kind = .null ∧ s.contains 0x00 = true) ∨
-    (e.kind = .posix ∧ langIn l langPOSIX = true ∧ ∃ t ∈ runes s, nonPrint t.r = true) ∨
-    (e.kind = .mksh ∧ langIn l langMksh = true ∧ langIn l langPOSIX = false ∧
-      s.contains 0x00 = false ∧ ∃ t ∈ runes s, t.r > 0xFFFD ∧ isPrint t.r = false) := by
-  have hok := runes_ok s
-  by_cases hs : s = []
-  · subst hs; simp [quote] at h
-  unfold quote at h
-  simp only [hs, ↓reduceIte] at h
-  cases hsc : scan l (runes s) 0 false false with
-  | error e' =>
-    rw [hsc] at h; cases h
-    rcases scan_error l _ _ _ _ e hsc with ⟨a, t, m, b⟩ | ⟨a, a', t, m, b⟩
-    · exact Or.inl ⟨a, (contains_zero_iff s).mpr ⟨t, m, b⟩⟩
-    · exact Or.inr (Or.inl ⟨a, a', t, m, b⟩)
-  | ok r =>
-    obtain ⟨sc, np⟩ := r
-    rw [hsc] at h; simp only at h
-    obtain ⟨i1, _, i3⟩ := scan_ok l _ _ _ _ _ _ hsc
-    by_cases hb : (!sc && !np && !isKeyword s) = true
-    · simp only [hb, ↓reduceIte] at h; cases h
-    · simp only [hb, Bool.false_eq_true, ↓reduceIte] at h
-      cases hnp : np with
-      | false =>
-        rw [hnp] at h; simp only [Bool.false_eq_true, ↓reduceIte] at h
-        split at h <;> cases h
-      | true =>
-        rw [hnp] at h i3; simp only [↓reduceIte] at h
-        cases hd : dollarBody l (runes s) 0 false with
-        | ok body => rw [hd] at h; cases h
-        | error e' =>
-          rw [hd] at h; cases h
-          obtain ⟨a, b, t, m, c⟩ := dollar_error l _ _ _ e hok hd
-          simp only [Bool.false_or] at i3
-          obtain ⟨t0, m0, hn0⟩ := List.any_eq_true.mp i3.symm
-          have hposix : langIn l langPOSIX = false := by
-            cases hp : langIn l langPOSIX
-            · rfl
-            · have := (i1 t0 m0).2 hp; rw [this] at hn0; cases hn0
-          have hz : s.contains 0x00 = false := by
-            cases hc : s.contains 0x00
-            · rfl
-            · obtain ⟨t', m', h'⟩ := (contains_zero_iff s).mp hc
-              exact absurd h' (i1 t' m').1
-          exact Or.inr (Or.inr ⟨a, b, hposix, hz, t, m, c⟩)
+    (e.kind = .posix ∧ resolve l = langPOSIX ∧ ∃ t ∈ runes s, nonPrint t.r = true) ∨
+    (e.kind = .mksh ∧ resolve l = langMksh ∧ s.contains 0x00 = false ∧
+      ∃ t ∈ runes s, t.r > 0xFFFD ∧ isPrint t.r = false) := by
+  have h0 := resolve_ne_zero l
+  have p2 := langIn_eq_of_ne_zero (resolve l) 2 (Or.inl rfl) h0
+  have p4 := langIn_eq_of_ne_zero (resolve l) 4 (Or.inr rfl) h0
+  rcases quoteCore_error_kind (resolve l) s e h with ⟨a, b⟩ | ⟨a, b, c⟩ | ⟨a, b, _, d, c⟩
+  · exact Or.inl ⟨a, b⟩
+  · refine Or.inr (Or.inl ⟨a, ?_, c⟩)
+    rw [show langPOSIX = 2 from rfl, p2] at b
+    have b' : resolve l = 2 := by simpa using b
+    exact b'
+  · refine Or.inr (Or.inr ⟨a, ?_, d, c⟩)
+    rw [show langMksh = 4 from rfl, p4] at b
+    have b' : resolve l = 4 := by simpa using b
+    exact b'
 
+/-- `quoteErrRange` ("rune out of range") is unreachable. -/
 theorem quote_never_range (l : Lang) (s : Bytes) (o : Nat) : quote l s ≠ .error ⟨o, .range⟩ := by
   intro h
   rcases quote_error_kind l s _ h with ⟨a, _⟩ | ⟨a, _⟩ | ⟨a, _⟩ <;> cases a
@@ -146,8 +125,8 @@ theorem quote_never_range (l : Lang) (s : Bytes) (o : Nat) : quote l s ≠ .erro
     `t` offends, and no rune of `pre` does. -/
 theorem quote_error_offset (l : Lang) (s : Bytes) (e : QErr) (h : quote l s = .error e) :
     ∃ pre t post, runes s = pre ++ t :: post ∧ e.offs = (pre.flatMap Tok.raw).length ∧
-      Offending l e.kind t ∧ ∀ t' ∈ pre, ¬ Offending l e.kind t' :=
-  quote_error_at l s e h
+      Offending (resolve l) e.kind t ∧ ∀ t' ∈ pre, ¬ Offending (resolve l) e.kind t' :=
+  quote_error_at (resolve l) s e h
 
 /-! ## Non-vacuity: every output shape and every error occurs -/
 
@@ -184,6 +163,8 @@ example : quote langMksh [0x61, 0xf3, 0xa0, 0x80, 0x81] = .error ⟨1, .mksh⟩ 
 example : quote langMksh [0xf0, 0x9f, 0x98, 0x80, 0x20] =
     .ok [0x27, 0xf0, 0x9f, 0x98, 0x80, 0x20, 0x27] := by
   decide +kernel
+-- the legacy zero value quotes like Bash
+example : quote 0 [0x1b] = .ok [0x24, 0x27, 0x5c, 0x78, 0x31, 0x62, 0x27] := by decide +kernel
 -- hypotheses of the theorems are satisfiable
 example : validLang 0 = true ∧ validLang langZsh = true := by decide
 example : ∃ l s q, validLang l = true ∧ quote l s = .ok q := ⟨1, [], _, rfl, rfl⟩
